@@ -1,8 +1,8 @@
 #!/bin/bash
-# usage: confirm_mutant.sh <ID>   -- confirms a sub-agent's mutant in its scratch worktree /tmp/mut-<ID>
+# usage: confirm_mutant.sh <ID> [prefix]   -- confirms a sub-agent's mutant in its scratch worktree /tmp/mut-<ID>
 # (patch = MUTANT/patch.diff applies to /repo HEAD, compiles, 33 tests pass, demo passes on original, fails on mutant)
 set -u
-ID=$1; W=/tmp/mut-$ID; T=/tmp/mut-$ID-target
+ID=$1; PFX=${2:-mut}; W=/tmp/$PFX-$ID; T=/tmp/$PFX-$ID-target
 cd $W || exit 2
 git -C $W diff --stat -- src | tail -1
 git -C $W stash -q 2>/dev/null
